@@ -143,6 +143,23 @@ partial def worldLoop (h : IO.FS.Stream) (out : IO.FS.Stream) (w : World) (nests
     worldLoop h out {} []
   else if t.startsWith "#" || t.isEmpty then
     worldLoop h out w nests
+  else if t.startsWith "releasek " then
+    -- "releasek e o": expectation e is released and the reporter, while it is being handed e's report, destroys mock o.
+    -- Observationally that is `release e` followed by `kill o` (if nothing is reported, the harness destroys o afterwards).
+    match (t.splitOn " ").filter (· != "") with
+    | [_, e, o] =>
+      match toNat? e, toNat? o with
+      | some e, some o =>
+        let (w1, ev1) := w.step (.release e)
+        let (w2, ev2) := w1.step (.kill o)
+        out.putStrLn (fmtEvs (ev1 ++ ev2))
+        worldLoop h out w2 nests
+      | _, _ =>
+        out.putStrLn "parse-error"
+        worldLoop h out w nests
+    | _ =>
+      out.putStrLn "parse-error"
+      worldLoop h out w nests
   else
     match parseOp t with
     | none =>
